@@ -91,6 +91,30 @@ def explore(ctx):
             continue
         cases.append(g_case(items, order, ps, obs))
         meta.append({"glyphs": items, "order": order, "postscriptNames": ps, "impl_rename_map": obs})
+        # generated names follow the Adobe glyph-naming rules: they decode back to the glyph's code point(s)
+        # (ligature parts joined by "_", suffix kept); judged where the name was generated, not lib-supplied,
+        # and not the over-long fallback to the (sanitised) original name
+        import re as _re
+        from fontTools import agl
+        uni = dict(items)
+        for orig, final in obs:
+            if ps and orig in ps:
+                continue
+            if _re.sub(r"\.\d+$", "", final) == _re.sub(r"[^0-9a-zA-Z_.]", "", orig) and not final.startswith(("uni", "u")):
+                continue
+            base, _, _suffix = orig.partition(".")
+            parts = base.split("_")
+            if uni.get(orig):
+                want = chr(uni[orig])
+            elif len(parts) > 1 and all(uni.get(pn) for pn in parts):
+                want = "".join(chr(uni[pn]) for pn in parts)
+            else:
+                continue
+            if final.startswith(("uni", "u")) and agl.toUnicode(final) != want:
+                ctx.spec_failure({"glyphs": items, "order": order, "postscriptNames": ps, "glyph": orig, "final_name": final},
+                                 "generated production name %r of %r does not decode to its code point(s) %r (decodes to %r)" % (
+                                     final, orig, [hex(ord(ch)) for ch in want], [hex(ord(ch)) for ch in agl.toUnicode(final)]))
+                break
         ctx.count()
         ctx.klass("function:" + ("psnames" if ps else "generated"))
         if any(a != b for a, b in obs) and any(b.rsplit(".", 1)[-1].isdigit() or "_" in a or "." in a for a, b in obs):
